@@ -302,7 +302,7 @@ Proof.
       * left. rewrite app_nil_r. reflexivity.
       * right. rewrite join_app by discriminate.
         exists (join_slash (s :: suf)).
-        rewrite <- app_comm_cons, <- app_assoc. reflexivity.
+        rewrite <- app_assoc. reflexivity.
 Qed.
 
 (* and the witness that the "+ sep" matters: without it the sibling would pass *)
